@@ -115,6 +115,8 @@ def run_property(prop, tier, seed, only=None, jobs=None):
 def summarize(prop, tier, seed, meta, results, wall, quiet=False, census=True):
     known = _load_json(os.path.join(VERIF, 'known_findings.json'), {'findings': []})['findings']
     baseline = _load_json(os.path.join(VERIF, 'baseline_obligations.json'), {}).get(prop, None)
+    if baseline is not None and ('quick' in baseline or 'thorough' in baseline):
+        baseline = baseline.get(tier)            # one census per tier (the thorough tier has contracts of its own)
     os.makedirs(os.path.join(OUT, 'replays'), exist_ok=True)
     os.makedirs(os.path.join(OUT, 'evidence'), exist_ok=True)
 
@@ -348,7 +350,11 @@ def main(argv=None):
                 if o['kind'] == 'canary' or o['status'] != 'discharged' or o['name'].endswith(('/divisors-nonzero', '/no-unexpected-exception')):
                     continue
                 (bnd if (r.get('bounded') or o.get('native')) else dis).append(o['name'])
-        base[a.prop] = {'discharged': sorted(dis), 'bounded': sorted(bnd)}
+        cur = base.get(a.prop, {})
+        if 'discharged' in cur:                  # old flat format
+            cur = {}
+        cur[a.tier] = {'discharged': sorted(dis), 'bounded': sorted(bnd)}
+        base[a.prop] = cur
         with open(bpath, 'w') as f:
             json.dump(base, f, indent=1, sort_keys=True)
     return code
